@@ -7,6 +7,7 @@ from .types import PT, INT, BOOL, EXT, NONE, STR, Opt, Seq, Set, Arr, Map, Tup
 from .values import (
     SV,
     ObjRef,
+    OptRef,
     View,
     StaticRec,
     StaticRecClass,
@@ -764,7 +765,9 @@ class CallMixin:
             result = None
             if c.returns is not None:
                 rpt = self.tenv.parse(c.returns) if isinstance(c.returns, str) else c.returns
-                if rpt.kind == "obj":
+                if rpt.kind == "opt" and rpt.args[0].kind == "obj":
+                    result = OptRef(self.ctx.fresh_const(short + "_present", "Bool"), self.alloc(rpt.args[0].name, st, short + "_res"))
+                elif rpt.kind == "obj":
                     result = self.alloc(rpt.name, st, short + "_res")
                 else:
                     result = self.fresh(short + "_res", rpt, st)
